@@ -109,7 +109,6 @@ class Machine:
         self._cue_time = 0
         self._call_stack.reset(self._constants)
         self._vm_math.reset()
-        self._keep_running = True
         self._enable_pause = True
 
     def run(self, program) -> None:
@@ -117,8 +116,9 @@ class Machine:
         loader.load(program)
         self._routines = loader.get_routines()
         self._program = loader.get_code()
-        self._keep_running = True
 
+        # _keep_running is not re-armed here: a stop() that arrived after the
+        # job was started, but before its thread got this far, must hold.
         logging.debug('Starting to execute.')
         self._clock.start()
         program_len = len(self._program)
@@ -143,6 +143,8 @@ class Machine:
             # running or half a line of output pending for the next script.
             self._clock.stop()
             self._vm_io.flush()
+            # This run is over; the next one starts armed.
+            self._keep_running = True
 
     def stop(self) -> None:
         self._keep_running = False
